@@ -136,6 +136,122 @@ def prep_stale_linker(root):
     shutil.rmtree(os.path.join(root, "garblecache", "build"), ignore_errors=True)
     write(os.path.join(root, "garblecache", "tool", "link.version"), "go1.26.0 stale\n")
 
+
+def scenario_debugdir():
+    """A build with -debugdir over a directory that an earlier build of garble owns. garble empties that directory first
+    (os.RemoveAll: unlink/rmdir in directory order). A kill inside that phase leaves the directory with some subset of its
+    top-level entries gone, which subset depends on the directory order the file system answers. Deciding step: ALL subsets of
+    the top-level entries removed (every state reachable under some directory order), plus half-emptied sub-trees, each followed
+    by the real build. Conformance: a supervised real run shows the emptying phase is only unlink/rmdir inside the directory,
+    in the order the file system lists it, and real kills at its first, middle and last boundary recover."""
+    name = "D-owned-debugdir"
+    S0 = os.path.join(g.root, "S0-" + name); compose(S0, [base])
+    src = os.path.join(g.root, "src-" + name); write_module(src, SRC, modpath=MODP)
+    DD0 = os.path.join(g.root, "dd0")
+    def build(root, dd, tag, k=None, logpath=None):
+        tmp = os.path.join(root, "tmp-" + tag); shutil.rmtree(tmp, ignore_errors=True)
+        gg = Garble(binpath=g.bin, gocache=os.path.join(root, "gocache"), garblecache=os.path.join(root, "garblecache"), name="c18")
+        out = os.path.join(root, "out")
+        cmd = [g.bin, "-debugdir=" + dd, "build", "-p", "1", "-o", out, "."]
+        if logpath:
+            cmd = [sup, "-t", dd] + (["-k", str(k)] if k else []) + ["-l", logpath, "--"] + cmd
+        p = run(cmd, cwd=src, env=gg.env(tmpdir=tmp), timeout=1800)
+        left = [e for e in (os.listdir(tmp) if os.path.isdir(tmp) else []) if e.startswith("garble-shared")]
+        shutil.rmtree(tmp, ignore_errors=True)
+        return p, left
+    def fileset(d): return sorted(os.path.relpath(os.path.join(r, f), d) for r, _, fs in os.walk(d) for f in fs)
+    p, _ = build(S0, DD0, "prep")          # fills the caches' debug artifacts and DD0 (first -debugdir build rebuilds everything)
+    if p.returncode != 0:
+        log("FATAL: -debugdir reference build failed:", short(p.stderr, 2000)); sys.exit(2)
+    p, _ = build(S0, DD0, "ref")           # warm build over the owned directory: the reference
+    if p.returncode != 0:
+        log("FATAL: warm -debugdir reference build failed:", short(p.stderr, 2000)); sys.exit(2)
+    refsha = sha256_file(os.path.join(S0, "out")); reffiles = fileset(DD0)
+    os.remove(os.path.join(S0, "out"))
+    top = sorted(os.listdir(DD0))
+    dirs = [e for e in top if os.path.isdir(os.path.join(DD0, e))]
+    states = [("removed:" + (",".join(sub) or "nothing"), list(sub), None) for r in range(len(top) + 1) for sub in itertools.combinations(top, r)]
+    for d in (dirs if tier != "quick" else dirs[:1]):
+        for also in ([], [e for e in top if e not in dirs]):
+            states.append(("half-emptied:%s%s" % (d, "+removed:" + ",".join(also) if also else ""), also, d))
+    log("[%s] owned debugdir holds %d files, top-level entries %s; %d crash states" % (name, len(reffiles), top, len(states)))
+    def apply_state(dd, removed, half):
+        for e in removed:
+            pth = os.path.join(dd, e)
+            shutil.rmtree(pth) if os.path.isdir(pth) else os.remove(pth)
+        if half:
+            files = [os.path.join(r, f) for r, _, fs in os.walk(os.path.join(dd, half)) for f in fs]
+            for f in files[:len(files) // 2]: os.remove(f)
+    def one_state(i):
+        label, removed, half = states[i]
+        root = os.path.join(g.root, "d-%d" % i); link_clone(S0, root)
+        dd = os.path.join(root, "dd"); shutil.copytree(DD0, dd)
+        apply_state(dd, removed, half)
+        p, left = build(root, dd, "s")
+        res = {"label": label, "rc": p.returncode, "stderr": p.stderr, "left": left}
+        if p.returncode == 0:
+            res["sha"] = sha256_file(os.path.join(root, "out")); res["files"] = fileset(dd)
+        shutil.rmtree(root, ignore_errors=True)
+        return res
+    results = pmap(one_state, range(len(states)), workers=6)
+    for r in results:
+        what = "[%s] -debugdir target left by a kill while garble was emptying it (%s), then the same build again" % (name, r["label"])
+        replay = {"replay.txt": what + "\ncommand: garble -debugdir=dd build -p 1 -o out .\n"}
+        cls = r["label"].split(":")[0] + ":" + ("sentinel-gone" if ".garble-debugdir" in r["label"] else "sentinel-kept")
+        if r["rc"] != 0:
+            R.violation("recovery-fails:debugdir:" + cls, "%s: exits %d: %s" % (what, r["rc"], short(r["stderr"], 500)), replay)
+        elif r["sha"] != refsha:
+            R.violation("recovery-binary-differs:debugdir:" + cls, "%s: binary differs from the uninterrupted build" % what, replay)
+        elif r["files"] != reffiles:
+            R.violation("recovery-debugdir-incomplete:" + cls, "%s: debugdir holds %d files instead of %d" % (what, len(r["files"]), len(reffiles)), replay)
+        if r["left"]:
+            R.violation("recovery-leaves-temp:debugdir:" + cls, "%s: left %s in TMPDIR" % (what, r["left"]), replay)
+    # conformance of the state model with the real emptying phase + real kills inside it
+    root = os.path.join(g.root, "d-log"); link_clone(S0, root); dd = os.path.join(root, "dd"); shutil.copytree(DD0, dd)
+    order = os.listdir(dd)
+    lp = os.path.join(g.root, "log-" + name)
+    p, _ = build(root, dd, "log", logpath=lp)
+    ops = [l.split("\t") for l in read(lp).split("\n") if l and l[0].isdigit()]
+    phase = []
+    for o in ops:
+        if o[2] != "unlink": break
+        phase.append((int(o[0]), o[3]))
+    seen_top = []
+    for n, pth in phase:
+        rel = os.path.relpath(pth, dd) if pth.startswith(dd) else pth
+        t = rel.split("/")[0]
+        if rel != "." and (not seen_top or seen_top[-1] != t): seen_top.append(t)
+    conform = p.returncode == 0 and len(phase) >= len(reffiles) and seen_top == order
+    log("[%s] real emptying phase: %d unlink/rmdir before the first other mutation; top-level order %s (directory lists %s): model %s" % (
+        name, len(phase), seen_top, order, "conforms" if conform else "DOES NOT CONFORM"))
+    shutil.rmtree(root, ignore_errors=True)
+    kills = 0
+    if phase:
+        ks = sorted(set([phase[0][0], phase[len(phase) // 2][0], phase[-1][0]]))
+        def one_kill(k):
+            root = os.path.join(g.root, "dk-%d" % k); link_clone(S0, root); dd = os.path.join(root, "dd"); shutil.copytree(DD0, dd)
+            lp = os.path.join(g.root, "klog-%s-%d" % (name, k))
+            build(root, dd, "k", k=k, logpath=lp)
+            killed = any(l.startswith("KILL") for l in (read(lp).split("\n") if os.path.exists(lp) else []))
+            p2, left = build(root, dd, "r")
+            res = {"k": k, "killed": killed, "rc": p2.returncode, "stderr": p2.stderr, "left": left}
+            if p2.returncode == 0:
+                res["sha"] = sha256_file(os.path.join(root, "out")); res["files"] = fileset(dd)
+            shutil.rmtree(root, ignore_errors=True)
+            return res
+        for r in pmap(one_kill, ks, workers=3):
+            if not r["killed"]: continue
+            kills += 1
+            what = "[%s] killed before mutation %d of the emptying phase, then the same build again" % (name, r["k"])
+            replay = {"replay.txt": what + "\n"}
+            if r["rc"] != 0: R.violation("recovery-fails:debugdir:real-kill", "%s: exits %d: %s" % (what, r["rc"], short(r["stderr"], 500)), replay)
+            elif r["sha"] != refsha: R.violation("recovery-binary-differs:debugdir:real-kill", what, replay)
+            elif r["files"] != reffiles: R.violation("recovery-debugdir-incomplete:real-kill", what, replay)
+    shutil.rmtree(S0, ignore_errors=True); shutil.rmtree(DD0, ignore_errors=True)
+    return {"crash_states": len(states), "files_in_debugdir": len(reffiles), "emptying_phase_mutations": len(phase), "model_conforms_to_real_run": conform, "real_kills": kills,
+            "states": [s[0] for s in states]}
+
+import itertools
 total_ops = total_runs = total_kills = 0; hits = set(); allb = set()
 def prep_none(root): pass
 def prep_no_tool(root):
@@ -153,9 +269,12 @@ else:
           ("A2-entries-cold", prep_no_garble_entries, False, sel_all_but_mkdirs),
           ("B-linker-cold-rename", prep_no_garblecache, False, lambda ops: sel_tool(ops, 5)),
           ("C-linker-stale-copy", prep_stale_linker, True, lambda ops: sel_tool(ops, 5))]
+if os.environ.get("VERIF_C18_ONLY") == "D": SC = []   # debugging aid
 for name, prep, shm, sel in SC:
     o, r, k, h, a = scenario(name, prep, shm, sel)
     total_ops += o; total_runs += r; total_kills += k; hits |= h; allb |= a
+ddrep = scenario_debugdir()
+total_runs += ddrep["crash_states"] + ddrep["real_kills"]
 
 R.finish({
     "evaluations": total_runs,
@@ -163,9 +282,12 @@ R.finish({
     "rule": "real `garble build -p 1` of a 2-package module under a ptrace supervisor that numbers every file-system mutation (open for write/create, write, rename, unlink, mkdir, truncate, chmod, utimens...) "
             "touching GOCACHE, GARBLE_CACHE or the output, and in kill mode SIGKILLs the whole process tree just before mutation K; start states: " + ", ".join(n for n, _, _, _ in SC) + " "
             "(A: user packages cold; A2: all of GARBLE_CACHE/build empty; B: patched linker absent, rename install; C: stale linker stamp with TMPDIR on another file system = in-place copy install); after each kill the same command is run again on the surviving caches; oracle: exit 0 and binary = uninterrupted reference; "
-            "distinct_nontrivial = distinct (syscall, normalised path) boundaries actually killed at",
+            "distinct_nontrivial = distinct (syscall, normalised path) boundaries actually killed at. "
+            "D: `garble -debugdir=<owned, populated dir> build`: every subset of the directory's top-level entries already removed (all states a kill inside os.RemoveAll can leave under any directory order) "
+            "and half-emptied sub-trees, each followed by the real build; the emptying phase of a real supervised run is compared with this model and killed for real at three boundaries",
     "samples": [list(h) for h in sorted(hits)[:6]],
     "mutations_in_uninterrupted_builds": total_ops, "kill_runs": total_runs, "kills_effective": total_kills,
+    "owned_debugdir_scenario": ddrep,
     "distinct_boundaries_in_log_runs": len(allb), "distinct_boundaries_killed_at": len(hits), "deadline_hit": dl.hit,
 }, assumptions=["a kill between two file-system mutations leaves the same persistent state as a kill at the later boundary", "one schedule (-p 1) per start state; a single write torn by SIGKILL is not produced (C07 covers truncation)"],
    exhaustive=(tier != "quick" and not dl.hit))
